@@ -171,7 +171,7 @@ def run(chk):
                 "present/absent, empty 2D cells, both calibration formats): observation = (nBytes - written, consumed - "
                 "written) for the block, nBytes of the decoded block, and (nBytes, written, consumed) of every nested "
                 "item; plus the 8 blocks of the BTS capture against their jump-table sizes; compared with the model's "
-                "(size, |enc|, consumed); also: blocks built, used (sized / encoded / compared / printed), then edited IN PLACE to another content of the same shape and used again; non-trivial = >=1 item and (a gap or >=2 items)")
+                "(size, |enc|, consumed); also: blocks built, used (sized / encoded / compared / printed), then edited IN PLACE to another content of the same shape and used again; blocks built from arrays with the same values but another memory layout (column-major, strided, reversed, big-endian, read-only, unaligned); non-trivial = >=1 item and (a gap or >=2 items)")
     corpus = codec.load_corpus("C02")
     check_cases(chk, corpus)
     n = 1500 if chk.tier == "quick" else 25000
@@ -182,7 +182,9 @@ def run(chk):
     check_cases(chk, cases)
     check_short_coefficients(chk)
     check_cases(chk, codec.large_count_cases(chk))
+    check_cases(chk, codec.threshold_cases(chk))
     codec.check_inplace(chk, "C02", 200 if chk.tier == "quick" else 3000)
+    codec.check_layouts(chk, "C02", 240 if chk.tier == "quick" else 3000)
     boundary_labels(chk)
     check_capture(chk)
 
